@@ -616,4 +616,223 @@ example : ∃ s, run TbCfg.code State.init
        ⟨⟨some ['p'], ['v'], ['d']⟩, []⟩] :=
   ⟨_, rfl, by decide⟩
 
+/-! ## 3. no attribute is lost
+
+### 3a. tree builder -/
+
+theorem codeResolveAttr_pfx (stack : List NsMap) (cur : NsMap) (a : RAttr) :
+    (codeResolveAttr stack cur a).name.pfx = a.name.pfx ∧
+    (codeResolveAttr stack cur a).name.loc = a.name.loc ∧
+    (codeResolveAttr stack cur a).value = a.value := by
+  unfold codeResolveAttr
+  match hp : a.name.pfx with
+  | none => simp
+  | some q =>
+    have := bindQName_pfx stack cur a.name
+    simp [this.1, this.2, hp]
+
+theorem processNamespaces_attrs (cfg : TbCfg) (stack : List NsMap) (t : Tag) :
+    (processNamespaces cfg stack t).attrs =
+      dedupPrefixed [] ((t.attrs.filter (fun a => !isDeclLike cfg a)).map
+        (codeResolveAttr stack (processNamespaces cfg stack t).map)) := by
+  unfold processNamespaces
+  generalize declareAll [] [] (t.attrs.filter (isDeclLike cfg)) = r
+  obtain ⟨cur, derrs⟩ := r
+  simp only []
+  exact bindAttrs_eq_code stack cur _ []
+
+/-- **C16 (attributes, tree builder)**: the created element's attribute list is a sub-list, in source
+order, of the tag's non-declaration attributes, each carrying its resolved name and its value … -/
+theorem C16_attrs_sublist (cfg : TbCfg) (stack : List NsMap) (t : Tag) :
+    (processNamespaces cfg stack t).attrs.Sublist
+      ((t.attrs.filter (fun a => !isDeclLike cfg a)).map
+        (codeResolveAttr stack (processNamespaces cfg stack t).map)) := by
+  rw [processNamespaces_attrs]; exact dedup_sublist _ _
+
+/-- … and an attribute that is not a declaration is missing from the element **only if** it is
+prefixed and an earlier non-declaration attribute of the same tag is prefixed and has the same
+expanded name (same resolved namespace, same local name).  Holds for every tag, every stack, both
+configurations — the tree builder by itself never loses an attribute otherwise.  (`isDeclLike` is
+the code's notion of a declaration; `C16_isDeclLike_is_decl` relates it to the Spec's.) -/
+theorem C16_attr_dropped_only_if (cfg : TbCfg) (stack : List NsMap) (t : Tag)
+    (l1 : List RAttr) (a : RAttr) (l2 : List RAttr) (ht : t.attrs = l1 ++ a :: l2)
+    (hnd : isDeclLike cfg a = false) :
+    codeResolveAttr stack (processNamespaces cfg stack t).map a ∈ (processNamespaces cfg stack t).attrs ∨
+    (a.name.pfx.isSome = true ∧ ∃ a' ∈ l1, isDeclLike cfg a' = false ∧ a'.name.pfx.isSome = true ∧
+      (codeResolveAttr stack (processNamespaces cfg stack t).map a').name.ns =
+        (codeResolveAttr stack (processNamespaces cfg stack t).map a).name.ns ∧
+      a'.name.loc = a.name.loc) := by
+  rw [processNamespaces_attrs cfg stack t]
+  generalize (processNamespaces cfg stack t).map = cur
+  have hsplit : (t.attrs.filter (fun a => !isDeclLike cfg a)).map (codeResolveAttr stack cur) =
+      (l1.filter (fun a => !isDeclLike cfg a)).map (codeResolveAttr stack cur) ++
+        codeResolveAttr stack cur a :: (l2.filter (fun a => !isDeclLike cfg a)).map (codeResolveAttr stack cur) := by
+    rw [ht]; simp [List.filter_append, List.filter_cons, hnd]
+  rw [hsplit]
+  rcases dedup_only_if [] _ (codeResolveAttr stack cur a) _ with h | ⟨hp, h | ⟨b, hb, hbp, hbn, hbl⟩⟩
+  · exact Or.inl h
+  · simp at h
+  · right
+    obtain ⟨a', ha', rfl⟩ := List.mem_map.mp hb
+    have hm := List.mem_filter.mp ha'
+    have e1 := codeResolveAttr_pfx stack cur a
+    have e2 := codeResolveAttr_pfx stack cur a'
+    refine ⟨by rw [← e1.1]; exact hp, a', hm.1, by simpa using hm.2, by rw [← e2.1]; exact hbp, hbn, ?_⟩
+    rw [← e2.2.1, ← e1.2.1]; exact hbl
+
+/-- outside `p:xmlns` the code's notion of "declaration" is the Spec's -/
+theorem C16_isDeclLike_is_decl (a : RAttr)
+    (h : a.name.loc = sXmlns → a.name.pfx = none ∨ a.name.pfx = some sXmlns) :
+    isDeclLike TbCfg.code a = isDecl a.name := isDeclLike_eq TbCfg.code a (Or.inr h)
+
+theorem C16_isDeclLike_fixed (a : RAttr) : isDeclLike TbCfg.fixed a = isDecl a.name :=
+  isDeclLike_eq TbCfg.fixed a (Or.inl rfl)
+
+/-! ### 3b. tokenizer: the duplicate-attribute step -/
+
+theorem mem_pushAttr (attrs : List RAttr) (t x : RAttr) : x ∈ pushAttr attrs t ↔ x = t ∨ x ∈ attrs := by
+  unfold pushAttr; split <;> simp [or_comm]
+
+theorem finishAttribute_mono (cfg : TokCfg) (acc : List RAttr) (a : RawAttr) (x : RAttr) (hx : x ∈ acc) :
+    x ∈ finishAttribute cfg acc a := by
+  unfold finishAttribute
+  split
+  · exact hx
+  · split
+    · exact hx
+    · exact (mem_pushAttr _ _ _).mpr (Or.inr hx)
+
+theorem tagAttrs_mono (cfg : TokCfg) (l : List RawAttr) (acc : List RAttr) (x : RAttr) (hx : x ∈ acc) :
+    x ∈ l.foldl (finishAttribute cfg) acc := by
+  induction l generalizing acc with
+  | nil => exact hx
+  | cons a rest ih => exact ih _ (finishAttribute_mono cfg acc a x hx)
+
+theorem foldl_origin (cfg : TokCfg) (l : List RawAttr) (acc : List RAttr) (pre : List RawAttr)
+    (hacc : ∀ y ∈ acc, ∃ b ∈ pre, y = ⟨splitQName b.name, b.value⟩) (x : RAttr)
+    (hx : x ∈ l.foldl (finishAttribute cfg) acc) :
+    ∃ b ∈ pre ++ l, x = ⟨splitQName b.name, b.value⟩ := by
+  induction l generalizing acc pre with
+  | nil => simpa using hacc x hx
+  | cons a rest ih =>
+    have := ih (finishAttribute cfg acc a) (pre ++ [a]) (by
+      intro y hy
+      unfold finishAttribute at hy
+      split at hy
+      · obtain ⟨b, hb, e⟩ := hacc y hy; exact ⟨b, by simp [hb], e⟩
+      · split at hy
+        · obtain ⟨b, hb, e⟩ := hacc y hy; exact ⟨b, by simp [hb], e⟩
+        · rcases (mem_pushAttr _ _ _).mp hy with rfl | hy
+          · exact ⟨a, by simp, rfl⟩
+          · obtain ⟨b, hb, e⟩ := hacc y hy; exact ⟨b, by simp [hb], e⟩) hx
+    simpa using this
+
+/-- every attribute collected so far comes from an earlier raw attribute -/
+theorem tagAttrs_origin (cfg : TokCfg) (l : List RawAttr) (x : RAttr)
+    (hx : x ∈ l.foldl (finishAttribute cfg) []) :
+    ∃ b ∈ l, x = ⟨splitQName b.name, b.value⟩ := by
+  simpa using foldl_origin cfg l [] [] (by simp) x hx
+
+/-- **C16 (attributes, tokenizer), with the fix of item 14**: an attribute (non-empty name) is
+missing from the tag handed to the tree builder **only if** an earlier attribute of the tag has the
+same qualified name — hence the same expanded name in every scope. -/
+theorem C16_tok_dropped_only_if_fixed (l1 : List RawAttr) (a : RawAttr) (l2 : List RawAttr)
+    (hne : a.name ≠ []) :
+    (⟨splitQName a.name, a.value⟩ : RAttr) ∈ tagAttrs TokCfg.fixed (l1 ++ a :: l2) ∨
+    ∃ b ∈ l1, splitQName b.name = splitQName a.name := by
+  unfold tagAttrs
+  rw [List.foldl_append, List.foldl_cons]
+  by_cases hdup : isDup TokCfg.fixed (l1.foldl (finishAttribute TokCfg.fixed) []) a.name = true
+  · right
+    simp only [isDup, TokCfg.fixed, ↓reduceIte] at hdup
+    obtain ⟨x, hx, hxe⟩ := List.any_eq_true.mp hdup
+    obtain ⟨b, hb, rfl⟩ := tagAttrs_origin TokCfg.fixed l1 x hx
+    exact ⟨b, hb, by simpa using hxe⟩
+  · left
+    apply tagAttrs_mono
+    generalize List.foldl (finishAttribute _) [] l1 = acc at hdup ⊢
+    unfold finishAttribute
+    simp only [hne, ↓reduceIte, hdup, Bool.false_eq_true]
+    exact (mem_pushAttr _ _ _).mpr (Or.inl rfl)
+
+/-- **C16 (attributes, tokenizer)**, `_partial` for the pinned tree: the same conclusion provided no
+earlier attribute's *local part* equals the new attribute's raw name unless the whole names agree
+(`finish_attribute` compares `a.name.local` with the raw name).
+Full statement: `C16_tok_dropped_only_if_fixed` for `TokCfg.code`; false: `C16_witness_item14`. -/
+theorem C16_tok_dropped_only_if_partial (l1 : List RawAttr) (a : RawAttr) (l2 : List RawAttr)
+    (hne : a.name ≠ [])
+    (hclash : ∀ b ∈ l1, (splitQName b.name).loc = a.name → splitQName b.name = splitQName a.name) :
+    (⟨splitQName a.name, a.value⟩ : RAttr) ∈ tagAttrs TokCfg.code (l1 ++ a :: l2) ∨
+    ∃ b ∈ l1, splitQName b.name = splitQName a.name := by
+  unfold tagAttrs
+  rw [List.foldl_append, List.foldl_cons]
+  by_cases hdup : isDup TokCfg.code (l1.foldl (finishAttribute TokCfg.code) []) a.name = true
+  · right
+    simp only [isDup, TokCfg.code, Bool.false_eq_true, ↓reduceIte] at hdup
+    obtain ⟨x, hx, hxe⟩ := List.any_eq_true.mp hdup
+    obtain ⟨b, hb, rfl⟩ := tagAttrs_origin TokCfg.code l1 x hx
+    exact ⟨b, hb, hclash b hb (by simpa using hxe)⟩
+  · left
+    apply tagAttrs_mono
+    generalize List.foldl (finishAttribute _) [] l1 = acc at hdup ⊢
+    unfold finishAttribute
+    simp only [hne, ↓reduceIte, hdup, Bool.false_eq_true]
+    exact (mem_pushAttr _ _ _).mpr (Or.inl rfl)
+
+/-- with the fix, no two attributes of the emitted tag have the same qualified name (so the tree
+builder never sees a prefix declared twice) -/
+theorem C16_tok_no_dup_qname_fixed (raw : List RawAttr) :
+    ((tagAttrs TokCfg.fixed raw).map (·.name)).Nodup := by
+  unfold tagAttrs
+  suffices ∀ acc : List RAttr, (acc.map (·.name)).Nodup →
+      ((raw.foldl (finishAttribute TokCfg.fixed) acc).map (·.name)).Nodup from this [] (by simp)
+  induction raw with
+  | nil => intro acc h; exact h
+  | cons a rest ih =>
+    intro acc h
+    apply ih
+    unfold finishAttribute
+    split
+    · exact h
+    · split
+      · exact h
+      · rename_i hnd
+        simp only [isDup, TokCfg.fixed, ↓reduceIte] at hnd
+        have hnot : splitQName a.name ∉ acc.map (·.name) := by
+          intro hm
+          obtain ⟨x, hx, hxe⟩ := List.mem_map.mp hm
+          exact hnd (List.any_eq_true.mpr ⟨x, hx, by simpa using hxe⟩)
+        unfold pushAttr
+        split
+        · simp [List.nodup_cons, hnot, h]
+        · rw [List.map_append, List.nodup_append]
+          refine ⟨h, by simp, ?_⟩
+          intro x hx y hy
+          simp at hy; subst hy
+          intro e; subst e; exact hnot hx
+
+/-- **witness of item 14** (pinned tree): `<a p:x="1" x="2">` loses `x` although no earlier attribute
+has its name (its expanded name differs from `p:x`'s whenever `p` is bound); with the attributes in
+the other order both survive — the drop depends on attribute order.  A declaration is hit the same
+way: `<a xmlns:p="u" p="1">` loses `p`, and `<a q:xmlns="1" xmlns="u">` loses the *declaration*. -/
+theorem C16_witness_item14 :
+    tagAttrs TokCfg.code [⟨['p', ':', 'x'], ['1']⟩, ⟨['x'], ['2']⟩] = [⟨⟨some ['p'], ['x']⟩, ['1']⟩] ∧
+    tagAttrs TokCfg.code [⟨['x'], ['2']⟩, ⟨['p', ':', 'x'], ['1']⟩] =
+      [⟨⟨none, ['x']⟩, ['2']⟩, ⟨⟨some ['p'], ['x']⟩, ['1']⟩] ∧
+    tagAttrs TokCfg.code [⟨"xmlns:p".toList, ['u']⟩, ⟨['p'], ['1']⟩] = [⟨⟨some sXmlns, ['p']⟩, ['u']⟩] ∧
+    tagAttrs TokCfg.code [⟨"q:xmlns".toList, ['1']⟩, ⟨sXmlns, ['u']⟩] = [⟨⟨some ['q'], sXmlns⟩, ['1']⟩] ∧
+    tagAttrs TokCfg.fixed [⟨['p', ':', 'x'], ['1']⟩, ⟨['x'], ['2']⟩] =
+      [⟨⟨some ['p'], ['x']⟩, ['1']⟩, ⟨⟨none, ['x']⟩, ['2']⟩] := by
+  refine ⟨by decide, by decide, by decide, by decide, by decide⟩
+
+/-- second consequence of item 14 on the pinned tree: `xmlns:p` twice is not recognised as a
+duplicate (raw `xmlns:p` ≠ local `p`), both reach the builder — in reversed order, because
+declarations are inserted at the front — so the *later* declaration wins -/
+theorem C16_witness_dup_decl_reversed :
+    tagAttrs TokCfg.code [⟨"xmlns:p".toList, ['u']⟩, ⟨"xmlns:p".toList, ['v']⟩] =
+      [⟨⟨some sXmlns, ['p']⟩, ['v']⟩, ⟨⟨some sXmlns, ['p']⟩, ['u']⟩] ∧
+    tagAttrs TokCfg.fixed [⟨"xmlns:p".toList, ['u']⟩, ⟨"xmlns:p".toList, ['v']⟩] =
+      [⟨⟨some sXmlns, ['p']⟩, ['u']⟩] := by
+  refine ⟨by decide, by decide⟩
+
 end H5V.Props.C16
